@@ -257,10 +257,19 @@ def c03(tier, seed, replay=None):
         coverage["transitions"] += st["transitions"]
         coverage["traces_validated_against_impl"] += st["backward_passes_validated"]
         return {"repository_suite_traces": st, "high_fan_out": st_fan}
-    return _run("C03", tier, seed, models, mutants, sets, decorate, "", ASSUME,
-                "every graph of the exported space (all DAGs with multi-edges, diamonds, dead branches, constants; contribution kinds "
-                "alias/fresh/sparse) is one case; distinct_nontrivial counts distinct (graph, session, builtin?) triples with >= 3 nodes",
-                extra=extra, forward=True)
+    t0 = time.time()
+    v1, cov = _run("C03", tier, seed, models, mutants, sets, decorate, "", ASSUME,
+                   "every graph of the exported space (all DAGs with multi-edges, diamonds, dead branches, constants; contribution kinds "
+                   "alias/fresh/sparse) is one case; distinct_nontrivial counts distinct (graph, session, builtin?) triples with >= 3 nodes",
+                   extra=extra, forward=True, write=False)
+    # multi-edges inside ONE operation: a gather x[idx] whose index repeats an entry reaches the same input element over several
+    # paths, and the contributions are summed by the sparse accumulation (np.add.at) - the index space of RuleSpace, clause RevExact
+    from checks import rules
+    v2, cov2 = rules.c03_multi(tier, seed)
+    rules.merge(v1, cov, v2, cov2, "multi_edges_inside_a_gather")
+    rc = v1.finish()
+    vlib.write_evidence("C03", tier, seed, "model_checking", cov, ASSUME + rules.ASSUME, time.time() - t0, len(v1.violations))
+    return rc
 
 
 def c10(tier, seed, replay=None):
